@@ -245,4 +245,21 @@ theorem C02_partial {m : Module} {o : Options} {src : String} {path : Option Str
       cases this
     exact ⟨hfin.1, bindingType_accepted t _ bt hshape hnm hbt⟩
 
+/-- "the generated layouts taken in pipeline-layout order": the pipeline layout has, at index `g`, the layout of group `g`,
+for every group a resource variable is declared in – so what `create_*_pipeline` looks up at a resource's `@group` is the
+layout `C02Ok` speaks about -/
+def C02PipelineOk (m : Module) (out : Out) : Prop :=
+  ∀ v ∈ boundGlobals m, out.pipelineGroups[v.group]? = some v.group
+
+instance (m : Module) (out : Out) : Decidable (C02PipelineOk m out) := by unfold C02PipelineOk; infer_instance
+
+/-- **C02** (pipeline-layout order): every resource variable's group layout sits at the variable's `@group` index of the
+pipeline layout. -/
+theorem C02_pipeline {m : Module} {o : Options} {src : String} {path : Option String} {out : Out}
+    (hg : gen m o src path = .ok out) : C02PipelineOk m out := by
+  intro v hv
+  have h4 := C04 hg
+  rw [h4.pipeline, h4.numbering]
+  exact List.getElem?_range (lt_groupCount hv)
+
 end WgslVerif
